@@ -86,6 +86,19 @@ def build(tier, seed):
                 except Exception:
                     continue
                 add("py/%s/%s/f%d" % (label, hdr, nsess), buf.getvalue(), pw, mem, "py7zr")
+    # headers that the codec alone does not protect: names LZMA2 stores uncompressed, and an encrypted (AES-only) header
+    cjk = "".join(chr(0x4E00 + (i * 37) % 2000) for i in range(24))
+    for label, names, filters, pw, enc in (("py/default/encoded/cjk-names", [cjk + ".txt", "目录/" + cjk[::-1]], None, None, False),
+                                           ("py/lzma2+aes/encrypted-header/f1", ["alpha.txt", "dir/beta.bin"], None, "secret", True)):
+        buf = io.BytesIO()
+        mm = [(n, TEXTS[i % len(TEXTS)] + bytes([70 + i])) for i, n in enumerate(names)]
+        try:
+            with py7zr.SevenZipFile(buf, "w", filters=filters, password=pw, header_encryption=enc) as z:
+                for n, b in mm:
+                    z.writestr(b, n)
+        except Exception:
+            continue
+        add(label, buf.getvalue(), pw, mm, "py7zr")
     ref_layouts = [
         ("ref/lzma2/sub", {"folders": [{"n": 3, "chain": [{"m": "LZMA2"}], "crc": "sub"}], "header": "lzma+crc"}),
         ("ref/lzma2/packcrc", {"folders": [{"n": 3, "chain": [{"m": "LZMA2"}], "crc": "sub"}], "header": "lzma+crc", "pack_crc": True}),
